@@ -42,13 +42,13 @@ ALL_KINDS = ['word', 'word', 'atom', 'unk', 'unkarg', 'unkarg2', 'label', 'index
              'itemize', 'enumerate', 'itemlab', 'verb', 'verbatim', 'inline', 'display', 'tabular', 'proof',
              'theorem', 'tikz', 'usermac', 'usermac2', 'usermacopt', 'usermacoptonly', 'defmac', 'defbymac', 'latexname', 'texorpdf', 'framebox',
              'unkenv', 'figure', 'minipage', 'vanish', 'hspace', 'phantom', 'quad', 'newline', 'group',
-             'textbackslash', 'gls', 'removed_ext', 'twice_ext', 'mathtext', 'footcite', 'accent', 'lstlisting',
+             'textbackslash', 'gls', 'glsentry', 'removed_ext', 'twice_ext', 'mathtext', 'footcite', 'accent', 'lstlisting',
              'includegraphics', 'emph', 'par', 'cref']
 
 ALL_PKGS = {'amsmath', 'amsthm', 'babel', 'biblatex', 'circuitikz', 'geometry', 'glossaries', 'graphicx',
             'hyperref', 'listings', 'mathtools', 'pgfplots', 'tikz', 'xcolor', 'xspace'}
 KIND_PKG = {'textcolor': 'xcolor', 'href': 'hyperref', 'texorpdf': 'hyperref', 'tikz': 'tikz',
-            'lstlisting': 'listings', 'gls': 'glossaries', 'footcite': 'biblatex', 'proof': 'amsthm',
+            'lstlisting': 'listings', 'gls': 'glossaries', 'glsentry': 'glossaries', 'footcite': 'biblatex', 'proof': 'amsthm',
             'includegraphics': 'graphicx', 'removed_ext': 'ext', 'twice_ext': 'ext', 'cref': 'cleveref'}
 PACK_CHOICES = ['*', '*', '*', '*', '', '', 'amsmath,amsthm', 'xcolor,hyperref,graphicx', 'biblatex,glossaries',
                 'tikz,listings,circuitikz', 'amsmath,xcolor,biblatex', '*,.yvm.ext']
@@ -69,7 +69,7 @@ def pkgs_of(pack):
 
 
 HEAD_FORBIDDEN = {'display', 'enumerate', 'section', 'proof', 'itemize', 'tabular', 'tikz', 'theorem', 'itemlab',
-                  'verbatim', 'figure', 'minipage', 'defmac', 'defbymac', 'removed_ext', 'unkenv', 'lstlisting', 'par'}
+                  'verbatim', 'figure', 'minipage', 'defmac', 'defbymac', 'removed_ext', 'unkenv', 'lstlisting', 'par', 'glsentry'}
 SIDE_EFFECTS = {'footnote', 'caption', 'inline', 'usermac', 'usermac2', 'usermacopt', 'usermacoptonly', 'gls', 'cref',
                 'footcite', 'twice_ext', 'mathtext'}
 # inside an argument that is duplicated by a macro (twice_ext): nothing with side effects or counters
@@ -87,6 +87,7 @@ class Gen:
         self.hid = 0
         self.main = []
         self.flows = []
+        self.flowspan = {}
         self.cur = self.main
         self.kinds = collections.Counter()
         self.depth = 0
@@ -245,7 +246,7 @@ class Gen:
             k = 'word'
         if not allow_par and k in ('par', 'display', 'verbatim', 'proof', 'theorem', 'minipage', 'lstlisting',
                                    'itemize', 'enumerate', 'itemlab', 'tabular', 'figure', 'unkenv', 'tikz',
-                                   'removed_ext', 'skip', 'defmac', 'defbymac', 'comment'):
+                                   'removed_ext', 'skip', 'defmac', 'defbymac', 'comment', 'glsentry'):
             k = 'word'
         if self.in_item and k in ('section',):
             k = 'word'
@@ -284,6 +285,20 @@ class Gen:
         src, out = r.choice(ACCENTS)
         self.word()
         st = self.pos()
+        if r.random() < .25:
+            # braced argument with more than one character: the accent goes to the first one, the others are
+            # ordinary copied text with their own offsets
+            acc, base, res = r.choice([("\\'", 'e', 'é'), ('\\v', 'S', 'Š'), ('\\"', 'o', 'ö'), ('\\c', 'C', 'Ç'), ('\\^', 'a', 'â')])
+            more = r.choice(['e', 'k', 'xy', 'ab'])
+            self.w(acc + '{' + base)
+            self.cur.append((res, st + 1, st + 1, 'w:accent'))
+            for ch in more:
+                p = self.pos()
+                self.w(ch)
+                self.cur.append((ch, p + 1, p + 1, 'w:accent-rest'))
+            self.w('}')
+            self.word()
+            return
         self.w(src)
         self.cur.append((out, st + 1, st + 1, 'w:accent'))
         if src[-1].isalpha() and src[-1] != '}' and len(src) == 3:
@@ -391,6 +406,7 @@ class Gen:
         self.w('}')
         en = self.pos()
         self.flows.append([(c, st + 1, en, 'g:footcite') for c in '[0].'])
+        self.flowspan[id(self.flows[-1])] = (st, en)
 
     def k_section(self):
         st = self.pos()
@@ -405,7 +421,7 @@ class Gen:
         if len(self.cur) > m0 and self.cur[-1][0] not in '!?':
             self.gen('.', st + 1, en, 'heading-dot')
 
-    def detached(self, f):
+    def detached(self, f, st):
         old = self.cur
         fl = []
         self.flows.append(fl)
@@ -414,15 +430,18 @@ class Gen:
         f()
         self.cur = old
         self.in_detached -= 1
+        self.flowspan[id(fl)] = (st, self.pos())     # source span of the call that produces the flow
 
     def k_footnote(self):
+        st = self.pos()
         self.w(self.rnd.choice(['\\footnote', '\\footnote[3]', '\\footnotetext', '\\footnote[' + self.hid_txt() + ']']))
         self.optws()
-        self.detached(lambda: self.group(tag='footnote'))
+        self.detached(lambda: self.group(tag='footnote'), st)
 
     def k_caption(self):
+        st = self.pos()
         self.w(self.rnd.choice(['\\caption', '\\caption[' + self.hid_txt() + ']']))
-        self.detached(lambda: self.group(tag='caption'))
+        self.detached(lambda: self.group(tag='caption'), st)
 
     def k_textcolor(self):
         self.w(self.rnd.choice(['\\textcolor{' + self.hid_txt() + '}', '\\colorbox{' + self.hid_txt() + '}',
@@ -885,6 +904,41 @@ class Gen:
             self.w(m)
             self.gen(out, st + 1, self.pos(), 'cleveref')
 
+    def k_glsentry(self):
+        """\\newglossaryentry in the document: the description is printed at the place of the definition
+        (first letter in upper case, full stop added); the value may be braced as a whole or hold inner groups"""
+        r = self.rnd
+        self.mid += 1
+        st = self.pos()
+        self.w('\\newglossaryentry{hgl%sQ}{name=%s, description=' % (b33(self.mid), self.hid_txt()))
+        whole = r.random() < .4
+        if whole:
+            self.w('{')
+        mark = len(self.cur)
+        self.w('ygdescr ')
+        self.path.append('glsdescr')
+        self.word()
+        for k in range(r.randint(0, 2)):
+            self.w(' ')
+            if r.random() < .5:
+                self.w(r.choice(['\\textbf{', '\\emph{', '\\zzunk{', '{']))
+                self.word()
+                if r.random() < .5:
+                    self.w(' ')
+                    self.word()
+                self.w('}')
+            else:
+                self.word()
+        self.path.pop()
+        if whole:
+            self.w('}')
+        if r.random() < .3:
+            self.w(', plural=' + self.hid_txt())
+        self.w('}')
+        en = self.pos()
+        self.cur[mark:mark] = [(c, st + 1, en, 'g:glsentry-description') for c in 'Ygdescr']
+        self.gen('.', st + 1, en, 'glsentry-description')
+
     def k_gls(self):
         if not self.glossary:
             return self.word()
@@ -953,6 +1007,7 @@ def random_document(rnd, size=None, lang='en', kinds=None, max_depth=5, glossary
     d.src = g.src()
     d.main = g.main
     d.flows = g.flows
+    d.flowspans = [g.flowspan.get(id(fl)) for fl in g.flows]
     d.kinds = g.kinds
     d.words = g.words
     d.lang = lang
